@@ -194,7 +194,7 @@ def edge_arrays(rng):
     return out
 
 
-def sampled_cases(rng, tier):
+def sampled_cases(rng, tier, huge=False):
     """arrays above 10000 elements as (kind, n, a, b, c) for the *g apis"""
     big = (1 << 60)
     cs = [
@@ -217,11 +217,12 @@ def sampled_cases(rng, tier):
     ]
     cs += [(1, 100000, 10, 7, big)]        # DICT encoding above 2^20 bytes (F20): 1110010 bytes
     if tier != "quick":
-        cs += [(1, 1200000, 10, 7, big),   # more than 2^20 distinct values: DICT refuses, TAGGED fallback
-               (3, 1100000, 200, 1, 0),    # 1.1 M values below 200: DICT 1.1 MB
+        cs += [(3, 1100000, 200, 1, 0),    # 1.1 M values below 200: DICT 1.1 MB
                (2, 150000, U64, 0, 0),     # random 64-bit: TAGGED 1.3 MB
-               (0, 200000, 1 << 62, (1 << 40) + 1, 0),
-               (2, 300000, 1 << 30, 1 << 33, 0)]
+               (0, 200000, 1 << 62, (1 << 40) + 1, 0)]
+        if huge:
+            # more than 2^20 distinct values: DICT refuses, TAGGED fallback (10 minutes of model time)
+            cs += [(1, 1200000, 10, 7, big)]
     return cs
 
 
@@ -293,7 +294,7 @@ def generate_C06(rng, tier):
     reps = 1 if tier == "quick" else 12
     for vs in arrays(rng, tier, reps):
         yield _rt(vs)
-    for c in sampled_cases(rng, tier):
+    for c in sampled_cases(rng, tier, huge=True):
         yield "adaptive_rtg %d %d %d %d %d" % c
     # forced encodings: every encoding on arrays of every branch
     for name, g in BRANCH_GENS:
@@ -307,7 +308,7 @@ def generate_C06(rng, tier):
             yield _with(e, vs)
     for c in sampled_cases(rng, tier)[:6 if tier == "quick" else 40]:
         for e in (DELTA, FOR, PFOR, DICT, TAGGED):
-            if c[1] <= 100000:
+            if c[1] <= 30011:
                 yield "adaptive_withg %d %d %d %d %d %d" % ((e,) + c)
     yield from two_call_cases(rng, tier)
     # full bitmaps: 4095 / 4096 / 4097 members (array -> bitmap container) and all 65536
